@@ -33,6 +33,8 @@ LEVEL_NOTE = 'scipy.special.gammaincc as independent tail; guard band at the dec
 VALS = [-2.0, 0.0, 1.0, 1.3, 4.0]
 ERRS = [0.0, 0.1, 1.0]
 SPECIAL = [float('nan'), float('inf')]
+TINY_V = [0.0, 1e-10, 1.1e-10, 5e-9]
+TINY_E = [0.0, 1e-12, 1e-9, 0.1]
 ALPHAS = [0.01, 0.05, 0.5]
 #           v1   e1   v2    e2
 CLASSES = {'small': (1.0, 0.1, 1.05, 0.1), 'large': (1.0, 0.1, 2.0, 0.1), 'onezero': (1.0, 0.0, 1.1, 0.2),
@@ -138,6 +140,15 @@ def job_a(args):
             for e1, v2, e2 in itertools.product(spe, spv, spe):
                 judge(rep, 'A1s', [[(first_v1, e1, v2, e2)]], (1,), ignore, alpha)
                 judge(rep, 'A1s', [[(v2, e1, first_v1, e2)]], (1,), ignore, alpha)
+    if first_v1 == VALS[0]:
+        # small magnitudes (deep-penetration scores): an error of 1e-12 is not "zero", such a bin is used like any other
+        tiny = list(itertools.product(TINY_V, TINY_E, TINY_V, TINY_E))
+        second = [CLASSES[n] for n in ('small', 'large', 'onezero', 'empty-eq', 'empty-diff')]
+        for alpha in ALPHAS:
+            for b in tiny:
+                judge(rep, 'A1t', [[b]], (1,), ignore, alpha, tagx='|tiny')
+                for b2 in second:
+                    judge(rep, 'A2t', [[b, b2]], (2,), ignore, alpha, tagx='|tiny')
     rep.sample({'A2': {'bins(v1,e1,v2,e2)': [one[4], allb[77]], 'ignore_empty': ignore}})
     return rep
 
